@@ -19,7 +19,7 @@
 EXTENDS Integers, Sequences, FiniteSets, TLC
 CONSTANTS Palette,      \* set of grant records [id, type, cmd, start, exp, user, key]
           MaxAdd, MaxSess, MaxReq, MaxTime,
-          CheckStart, CheckIssue, CheckPF
+          CheckStart, CheckIssue, CheckPF, MaxToggle
 
 Users == {g.user : g \in Palette}
 Keys  == {g.key : g \in Palette}
@@ -27,33 +27,38 @@ Kinds == {[type |-> "shell", cmd |-> "-"], [type |-> "cmd", cmd |-> "A"], [type 
           [type |-> "localpf", cmd |-> "-"], [type |-> "remotepf", cmd |-> "-"], [type |-> "issue", cmd |-> "-"]}
 ById(i) == CHOOSE g \in Palette : g.id = i
 
-VARIABLES now, added, store, keyset, sess, started, issued, nreq
-vars == <<now, added, store, keyset, sess, started, issued, nreq>>
+VARIABLES now, added, store, keyset, sess, started, issued, nreq, enabled, ntog
+vars == <<now, added, store, keyset, sess, started, issued, nreq, enabled, ntog>>
 \* store: [<<user, key>> -> sequence of grant ids]; sess: sequence of [user, key, grants (sequence of ids)]
 \* started: set of [sid, kind, grant (id or 0), at]; issued: grants issued by delegate sessions
 
 Init == now = 0 /\ added = {} /\ store = [p \in Users \X Keys |-> <<>>] /\ keyset = {} /\ sess = <<>> /\ started = {}
-        /\ issued = 0 /\ nreq = 0
+        /\ issued = 0 /\ nreq = 0 /\ enabled = TRUE /\ ntog = 0
+
+(* the operator switches authorization grants off or on (the flag is read live by the server) *)
+Toggle == /\ MaxToggle > 0 /\ ntog < MaxToggle /\ enabled' = ~enabled /\ ntog' = ntog + 1
+          /\ UNCHANGED <<now, added, store, keyset, sess, started, issued, nreq>>
 
 AddGrant(g) ==
+    /\ enabled                                   \* while grants are off nothing is recorded
     /\ g \notin added /\ Cardinality(added) < MaxAdd
     /\ added' = added \cup {g}
     /\ store' = [store EXCEPT ![<<g.user, g.key>>] = Append(@, g.id)]
     /\ keyset' = keyset \cup {g.key}
-    /\ UNCHANGED <<now, sess, started, issued, nreq>>
+    /\ UNCHANGED <<now, sess, started, issued, nreq, enabled, ntog>>
 
-Tick == now < MaxTime /\ now' = now + 1 /\ UNCHANGED <<added, store, keyset, sess, started, issued, nreq>>
+Tick == now < MaxTime /\ now' = now + 1 /\ UNCHANGED <<added, store, keyset, sess, started, issued, nreq, enabled, ntog>>
 
-Admits(u, k) == store[<<u, k>>] # <<>>
+Admits(u, k) == enabled /\ store[<<u, k>>] # <<>>      \* a stored grant admits nobody while grants are switched off
 Connect(u, k) ==
     /\ Len(sess) < MaxSess
     /\ IF Admits(u, k)
-       THEN /\ sess' = Append(sess, [user |-> u, key |-> k, grants |-> store[<<u, k>>], ok |-> TRUE])
+       THEN /\ sess' = Append(sess, [user |-> u, key |-> k, grants |-> store[<<u, k>>], ok |-> TRUE, en |-> enabled])
             /\ store' = [store EXCEPT ![<<u, k>>] = <<>>]
             /\ keyset' = keyset \ {k}
-       ELSE /\ sess' = Append(sess, [user |-> u, key |-> k, grants |-> <<>>, ok |-> FALSE])
+       ELSE /\ sess' = Append(sess, [user |-> u, key |-> k, grants |-> <<>>, ok |-> FALSE, en |-> enabled])
             /\ UNCHANGED <<store, keyset>>
-    /\ UNCHANGED <<now, added, started, issued, nreq>>
+    /\ UNCHANGED <<now, added, started, issued, nreq, enabled, ntog>>
 
 Effective(g) == (CheckStart => g.start <= now) /\ now < g.exp
 Matches(g, kd) == g.type = kd.type /\ (kd.type = "cmd" => g.cmd = kd.cmd)
@@ -76,10 +81,10 @@ Request(s, kd) ==
             /\ sess' = [sess EXCEPT ![s].grants = RemoveAt(@, i)]
             /\ UNCHANGED issued
        ELSE UNCHANGED <<sess, started, issued>>
-    /\ UNCHANGED <<now, added, store, keyset>>
+    /\ UNCHANGED <<now, added, store, keyset, enabled, ntog>>
 
 Next == \/ \E g \in Palette : AddGrant(g)
-        \/ Tick
+        \/ Tick \/ Toggle
         \/ \E u \in Users, k \in Keys : Connect(u, k)
         \/ \E s \in 1..MaxSess, kd \in Kinds : Request(s, kd)
 Spec == Init /\ [][Next]_vars
@@ -101,6 +106,8 @@ OnePlace == \A g \in added :
                Cardinality({p \in DOMAIN store : \E i \in 1..Len(store[p]) : store[p][i] = g.id})
              + Cardinality({s \in 1..Len(sess) : \E i \in 1..Len(sess[s].grants) : sess[s].grants[i] = g.id})
              + Cardinality({a \in started : a.grant = g.id}) <= 1
+(* a session is admitted only while grants are enabled - recorded at admission *)
+AdmittedOnlyWhenEnabled == \A s \in 1..Len(sess) : sess[s].ok => sess[s].en
 (* grants are usable only by the key they name: a session only ever holds grants of its own user and key *)
 OwnGrantsOnly == \A s \in 1..Len(sess) : \A i \in 1..Len(sess[s].grants) :
                     ById(sess[s].grants[i]).user = sess[s].user /\ ById(sess[s].grants[i]).key = sess[s].key
